@@ -3,8 +3,8 @@
 // fixed_point_backward_options, fixed_point_backward.
 // Same invariants and step lemmas as the forward solver (units/C09/fp_theory.rs, fwd == false); the
 // concrete data are HashMap<RefProgramLocation<'f>, State> and VecDeque<RefProgramLocation<'f>>.
-// TERMINATION IS NOT PROVED (the code has no step budget and the trait has no height measure):
-// `exec_allows_no_decreases_clause`.
+// Termination is proved from the step budget the backward solver has since /repo commit 19d2311
+// (decreases DEFAULT_MAX_ANALYSIS_STEPS + 1 - steps).
 // ======================================================================================
 broadcast use {location_hash::axiom_ref_program_location_obeys_key_model, vstd::std_specs::hash::axiom_random_state_builds_valid_hashers};
 
